@@ -264,6 +264,20 @@ Proof.
   apply Z.ltb_lt in E. f_equal. apply IH; lia.
 Qed.
 
+(* ---- closeCurAndNewFile: removal BEFORE creation; nothing is created when the removal failed ----
+   1 removeDeprecatedFiles . 5/6 Close of the current data / idx file . 2 os.Create(data) . 3 os.Create(idx) .
+   4/7/8/9 the new handles and writers stored *)
+Lemma ml_closeCurAndNewFile_spec close_ok closeidx_ok cur_open curidx_open mf_ok mif_ok rm_ok :
+  ml_closeCurAndNewFile close_ok closeidx_ok cur_open curidx_open mf_ok mif_ok rm_ok =
+  if negb rm_ok then (1, [A0 1]) else
+  let t := A0 1 :: (if cur_open then [A0 5] else []) ++ (if curidx_open then [A0 6] else []) in
+  if negb mf_ok then (1, t ++ [A0 2]) else
+  if negb mif_ok then (1, t ++ [A0 2; A0 3]) else (0, t ++ [A0 2; A0 3; A0 4; A0 7; A0 8; A0 9]).
+Proof.
+  unfold ml_closeCurAndNewFile. cbv zeta.
+  destruct rm_ok, cur_open, curidx_open, mf_ok, mif_ok, close_ok, closeidx_ok; reflexivity.
+Qed.
+
 (* ================================================================== searcher.go ===== *)
 
 (* ---- isPositionInTimeFor = cache_ok ------------------------------------------------------------ *)
@@ -644,6 +658,7 @@ Definition C17_leaf_obligations := (
   @ml_rollFileIfSizeExceeded_spec,
   @ml_nextFileNameOfTime_some,
   @remove_iter_ok,
+  @ml_closeCurAndNewFile_spec,
   @ml_isPositionInTimeFor_ok,
   @ml_getOffsetStartAndFileIdx_ok,
   @gen_search_ok,
